@@ -16,7 +16,7 @@ func init() {
 		Level: "other",
 		Explanation: "Decided (structural necessary conditions of newest-revision lookup): (R4.1) xref discovery takes the last startxref, builds the revision list oldest-first and merges it with an unconditional last-writer-wins update (or the mirrored pair), and the reader merges exactly that list; (R4.2) every object load in GetObject is dominated by the entry's in-use test and an unknown number is an error; (R4.3) the object cache is written only by GetObject under the requested object number after a successful load, the object-stream cache only by getObjectStream under its stream number, and both are looked up with the same key; (R4.4) an object taken from an object stream is cross-checked against the requested number before a successful return, with index and stream number taken from the entry; (R4.5) re-entrant resolution cannot disturb a suspended parse (shared with C01). " +
 			"Not decided: correctness of the parsed xref entries themselves, hybrid /XRefStm files, generation numbers.",
-		Rules: []func(*eng.Ctx){ruleClassicXRefSpellingsEvaluated, ruleLookupErrorsPropagate, ruleObjectParsersHaveResolver, ruleNoLockAcrossReentry, memoInvalidationRule("R4.MI", "reader", "core", "pages", "resolver"), ruleMemoKeyCoversInputs, ruleEntryOffsetByType, ruleMergeOrder, ruleFreeIsError, ruleCacheDiscipline, ruleObjStmCrosscheck, ruleSharedHandle, ruleXRefStreamCursor, roleRule("R4.R", "core", "reader"), ruleResolveDeepCopies, ruleXRefEntriesTotal, ruleObjStmHeaderOrder, ruleMarkUnmarkBalance, ruleSectionKindPerSection},
+		Rules: []func(*eng.Ctx){rulePhysicalLayoutsEvaluated, ruleRevisionHistoriesEvaluated, ruleClassicXRefSpellingsEvaluated, ruleLookupErrorsPropagate, ruleObjectParsersHaveResolver, ruleNoLockAcrossReentry, memoInvalidationRule("R4.MI", "reader", "core", "pages", "resolver"), ruleMemoKeyCoversInputs, ruleEntryOffsetByType, ruleMergeOrder, ruleFreeIsError, ruleCacheDiscipline, ruleObjStmCrosscheck, ruleSharedHandle, ruleXRefStreamCursor, roleRule("R4.R", "core", "reader"), ruleResolveDeepCopies, ruleXRefEntriesTotal, ruleObjStmHeaderOrder, ruleMarkUnmarkBalance, ruleSectionKindPerSection},
 	})
 }
 
